@@ -90,11 +90,11 @@ func NewDict(allowDupKeys bool, entries ...DictEntryTuple) (Set, error) {
 
 func (d Dict) Hash(seed uintptr) uintptr {
 	// TODO: Optimize.
-	h := seed
+	var h uintptr
 	for e := d.Enumerator(); e.MoveNext(); {
 		h ^= e.Current().Hash(seed)
 	}
-	return h
+	return finishHash(h, seed)
 }
 
 func (d Dict) Equal(v Value) bool {
